@@ -204,6 +204,16 @@ def command_line():
                         want["procname"] = stem
                         if captured != want:
                             res.append(ob("cli/%s %s" % (stem, " ".join(list(flags) + extra)), False, want, dict(captured)))
+            # the procedure is named after the name on the command line, whatever that name resolves to in the file system
+            real = os.path.join(d, "level_one.bas")
+            open(real, "w").write("10 A=1\n")
+            for linkname in ("game.bas", "sub"):
+                link = os.path.join(d, linkname)
+                os.symlink(real, link)
+                decb_to_b09.start([link, os.path.join(d, "out.b09")])
+                want = dict(defaults, procname=linkname.split(".")[0])
+                if captured != want:
+                    res.append(ob("cli/symlinked input %s" % linkname, False, want, dict(captured)))
             if not res:
                 res.append(ob("cli/flags map to exactly their option; procedure named after the file stem", True, "7 stems x 16 flag sets x (none, -c, -s n; nine values of n for the first stem)", "all equal"))
         finally:
